@@ -43,6 +43,7 @@ type node struct {
 	Sec  int64   `json:"sec,omitempty"`
 	Nsec int64   `json:"nsec,omitempty"`
 	Kids []*node `json:"kids,omitempty"`
+	RS   int     `json:"rs,omitempty"` // reader style serving a file's content, see styledReader
 }
 
 type tcase struct {
@@ -83,6 +84,61 @@ func statOf(n *node) os.FileInfo {
 	return &stat{name: string(n.N), size: int64(len(n.D)), mode: os.FileMode(n.Mode), mtime: n.mtime()}
 }
 
+// styledReader serves d through one of several legal io.Reader behaviours:
+//
+//	0 plain bytes.Reader (as much as fits, then 0,EOF)
+//	1 the last bytes are returned together with io.EOF (iotest.DataErrReader, HTTP bodies)
+//	2 one byte per Read, then 0,EOF
+//	3 as 0, but one (0,nil) read before the first byte and one before EOF
+//	4 one byte per Read and the last byte together with io.EOF
+const readerStyles = 5
+
+type styledReader struct {
+	d          []byte
+	off        int
+	style      int
+	zero0, zeroE bool
+}
+
+func (r *styledReader) Read(p []byte) (int, error) {
+	if len(p) == 0 {
+		return 0, nil
+	}
+	if r.style == 3 {
+		if !r.zero0 {
+			r.zero0 = true
+			return 0, nil
+		}
+		if r.off == len(r.d) && !r.zeroE {
+			r.zeroE = true
+			return 0, nil
+		}
+	}
+	if r.off == len(r.d) {
+		return 0, io.EOF
+	}
+	n := len(r.d) - r.off
+	if n > len(p) {
+		n = len(p)
+	}
+	if (r.style == 2 || r.style == 4) && n > 1 {
+		n = 1
+	}
+	copy(p, r.d[r.off:r.off+n])
+	r.off += n
+	if r.off == len(r.d) && (r.style == 1 || r.style == 4) {
+		return n, io.EOF
+	}
+	return n, nil
+}
+
+func contentReader(n *node) io.Reader {
+	if n.RS == 0 {
+		return bytes.NewReader(n.D)
+	}
+	return &styledReader{d: n.D, style: n.RS}
+}
+
 func build(n *node, abspath bool) files.Node {
 	switch n.K {
 	case kLink:
@@ -91,13 +147,13 @@ func build(n *node, abspath bool) files.Node {
 		return buildDir(n.Kids, statOf(n), abspath)
 	default:
 		if abspath {
-			f, err := files.NewReaderPathFile("/abs/"+string(n.N), io.NopCloser(bytes.NewReader(n.D)), statOf(n))
+			f, err := files.NewReaderPathFile("/abs/"+string(n.N), io.NopCloser(contentReader(n)), statOf(n))
 			if err != nil {
 				panic(err)
 			}
 			return f
 		}
-		return files.NewReaderStatFile(bytes.NewReader(n.D), statOf(n))
+		return files.NewReaderStatFile(contentReader(n), statOf(n))
 	}
 }
 
@@ -200,6 +256,9 @@ func render(ns []*node, ind string, sb *strings.Builder) {
 				d = d[:40] + fmt.Sprintf("...(%d bytes)", len(n.D))
 			}
 			fmt.Fprintf(sb, " %s", strconv.Quote(d))
+		}
+		if n.RS != 0 {
+			fmt.Fprintf(sb, " reader-style=%d", n.RS)
 		}
 		fmt.Fprintf(sb, " mode=%#o", n.Mode)
 		if n.TSet {
@@ -531,6 +590,62 @@ func layer1(d *driver) {
 	})
 }
 
+// layer 1r: every file content x every non-plain reader style x reduced
+// name/mode/mtime pools x 3 positions x 4 configurations, alone and followed
+// by a second file served in the same style (so that the bytes delivered with
+// or around io.EOF are followed by another part).
+func layer1r(d *driver) {
+	r := d.r
+	var contents []kd
+	for _, k := range kindsFull(r.Thorough()) {
+		if k.k == kFile {
+			contents = append(contents, k)
+		}
+	}
+	contents = append(contents, kd{kFile, "z"}, kd{kFile, strings.Repeat("ab", 2048)}, kd{kFile, strings.Repeat("c", 4097)})
+	names := []string{"a", "a b", `q"uote`}
+	modes := []uint32{0, 0o644}
+	mtimes := []mt{{}, {true, 5, 7}}
+	cfgs := []cfg{{true, false}, {false, false}, {true, true}, {false, true}}
+	r.Set("L1r_contents", len(contents))
+	r.Set("L1r_reader_styles", readerStyles-1)
+	eng.ParFor(len(contents)*(readerStyles-1), func(i int) {
+		if r.Expired() {
+			return
+		}
+		k, rs := contents[i/(readerStyles-1)], 1+i%(readerStyles-1)
+		for ni, name := range names {
+			for _, m := range modes {
+				for _, t := range mtimes {
+					for pos := 0; pos < 3; pos++ {
+						for _, two := range []bool{false, true} {
+							for _, cf := range cfgs {
+								e := mk(name, k, m, t)
+								e.RS = rs
+								es := []*node{e}
+								if two {
+									e2 := mk("zz", kd{kFile, "tail"}, 0, mt{})
+									e2.RS = rs
+									es = append(es, e2)
+								}
+								root := es
+								if pos >= 1 {
+									root = []*node{plainDir("d", es...)}
+								}
+								if pos == 2 {
+									root = []*node{plainDir("d", plainDir("e", es...), mk("z", kd{kFile, "z"}, 0, mt{}))}
+								}
+								d.exec(&tcase{Layer: "L1r", Form: cf.form, Raw: cf.raw, Root: root}, fmt.Sprint("L1r/", i, ni, m, t, pos, two, cf))
+								r.Add("files_served_by_nonplain_reader", len(es))
+							}
+						}
+					}
+				}
+			}
+		}
+	})
+}
+
 // layer 2: two entries A,B from reduced pools, full product, as siblings [A,B]
 // and as parent/child A{B} (A a directory), form and mixed.
 func layer2(d *driver) {
@@ -628,6 +743,7 @@ func instantiate(ss []*shape, off int, idx *int) []*node {
 		switch s.k {
 		case kFile:
 			n.D = []byte([]string{"", "data", "\r\n--", "x\r\n"}[(i+off)%4])
+			n.RS = (i/4 + off) % readerStyles
 			n.Mode = modesFull[(i+off*2)%len(modesFull)]
 		case kLink:
 			n.D = []byte([]string{"t", "../x y", ""}[(i+off)%3])
@@ -680,12 +796,13 @@ func layer3(d *driver, depth, width int, tag string, offsets []int) {
 
 func main() {
 	eng.Main("C39", "exploration", func(r *eng.Run) {
-		r.Rule("E2 enumeration of trees, each serialised by MultiFileReader and parsed back by NewFileFromPartReader on the real code and compared with the input (names, kinds, contents, link targets; in form mode also mode and mtime incl. unset-stays-unset; sibling order not compared). L1: one entry, full product name x kind/content x mode x mtime x 3 nesting positions x {form,mixed} x {abspath-encoded,abspath}. L2: all ordered pairs of node variants (name x kind x mode x mtime) as siblings and as parent/child. L3: every tree shape up to the depth/width bound over {file,symlink,dir}, attributes rotated through the pools in pre-order for every rotation offset. Every case with >= 1 entry is non-trivial; names that are not a single path component ('a/b', '..', '', ...) may be rejected but must not be altered.")
+		r.Rule("E2 enumeration of trees, each serialised by MultiFileReader and parsed back by NewFileFromPartReader on the real code and compared with the input (names, kinds, contents, link targets; in form mode also mode and mtime incl. unset-stays-unset; sibling order not compared). L1: one entry, full product name x kind/content x mode x mtime x 3 nesting positions x {form,mixed} x {abspath-encoded,abspath}. L1r: every file content x reader styles {bytes with io.EOF in the same call, 1-byte reads, a (0,nil) read, 1-byte reads ending with byte+EOF} x reduced name/mode/mtime pools x 3 positions x 4 configurations, alone and followed by a second file; in L3 the reader style of each file is rotated as well. L2: all ordered pairs of node variants (name x kind x mode x mtime) as siblings and as parent/child. L3: every tree shape up to the depth/width bound over {file,symlink,dir}, attributes rotated through the pools in pre-order for every rotation offset. Every case with >= 1 entry is non-trivial; names that are not a single path component ('a/b', '..', '', ...) may be rejected but must not be altered.")
 		r.Assume("mime/multipart, net/url and net/textproto of the Go standard library are correct")
 		r.Assume("file contents do not contain a complete multipart delimiter line (CRLF--boundary followed by CRLF or --); inherent to the format")
 		r.Assume("with the legacy raw 'abspath' header (rawAbsPath=true) files carry no absolute path")
 		d := &driver{r: r, outcomes: map[string]int{}}
 		layer1(d)
+		layer1r(d)
 		layer2(d)
 		all := make([]int, len(namesL3))
 		for i := range all {
